@@ -42,7 +42,8 @@ def split_commas(toks, lo, hi):
 
 
 class Normaliser:
-    def __init__(self, bools=(), consts=None, const_prefix=None, keep_mut=False):
+    def __init__(self, bools=(), consts=None, const_prefix=None, keep_mut=False, vis="pub"):
+        self.vis = vis
         self.bools = set(bools)
         self.consts = set(consts) if consts is not None else set(CONSTS)
         self.const_prefix = set(const_prefix) if const_prefix is not None else set(CONST_PREFIX)
@@ -113,8 +114,13 @@ class Normaliser:
                 i += 1
                 continue
             raise NormError("unsupported qualifier %r" % t.text)
+        if self.vis == "none":
+            out = toks[i:]
+            out[0].ws = ws
+            return out
         out = mk("pub") + toks[i:]
         out[0].ws = ws
+        out[1].ws = " "
         return out
 
     # ---- signature helpers ------------------------------------------------
@@ -395,6 +401,8 @@ class Normaliser:
             toks = self.unchecked(toks)
             toks = self.bool_ops(toks)
             toks = self.const_uses(toks)
+        elif kind == "trait":
+            toks = self.strip_quals(toks, "trait")
         elif kind == "struct":
             toks = self.strip_quals(toks, "struct")
             # N2: make fields public
@@ -412,6 +420,8 @@ class Normaliser:
         from .rtok import strip_comments_ws
         for t in toks:
             t.ws = strip_comments_ws(t.ws)
+            if t.ws.count("\n") > 1:      # collapse blank lines left by comments
+                t.ws = "\n" + t.ws.rsplit("\n", 1)[-1]
         # leading whitespace of the item: just the indentation of its first line
         if toks:
             toks[0].ws = "\n" + toks[0].ws.rsplit("\n", 1)[-1] if "\n" in toks[0].ws else toks[0].ws
